@@ -39,6 +39,7 @@ type Ctx struct {
 	nilSafeMemo map[string]bool
 	abw map[fieldKey]bool
 	focus []string
+	tonl01Kinds map[string]bool
 }
 
 type Floor struct {
